@@ -219,8 +219,101 @@ def make_runner_funnel():
     return factory
 
 
+# ---------------------------------------------------------------- whole lint/fix run under a SYMBOLIC node limit
+LIMIT_SQL = {
+    "12 select targets on one line (LT09 adds tokens)": "select " + ",".join(f"c{i}" for i in range(12)) + " from t\n",
+    "missing spaces and alias keyword": "select a+b  as x,c d from t where a=1\n",
+}
+
+
+def make_limit_run(sql, fix):
+    """Linter.lint_string with max_parse_nodes = a symbolic integer: every comparison of the running node count with the
+    limit (initial parse, pre-check, and every re-parse that validates a fix) is decided by the solver, so each interval
+    of limits with a different behaviour is one path."""
+    def factory(excluded=frozenset()):
+        import sqlfluff.core.parser.context as pc
+        lmod.isinstance = sym_isinstance
+        pc.isinstance = sym_isinstance
+        lmod.linter_logger = NullLogger()
+
+        def harness(c):
+            import logging
+            n = fresh_int(c, "max_parse_nodes", 0)
+            cfg = FluffConfig(overrides={"dialect": "ansi"})
+            cfg._configs["core"]["max_parse_nodes"] = n
+            logging.disable(logging.CRITICAL)
+            try:
+                lf = Linter(config=cfg).lint_string(sql, fix=fix)   # REAL: must return for EVERY limit
+            finally:
+                logging.disable(logging.NOTSET)
+            codes = {v.rule_code() for v in lf.get_violations()}
+            if "PRS" in codes:
+                c.witness("limit_reported_as_PRS")
+            else:
+                c.witness("within_limit")
+            return True
+        return harness
+    return factory
+
+
+def replay_limit_run(sql, fix):
+    def rp(cex):
+        import sqlfluff.core.parser.context as pc
+        for m in (lmod, pc):
+            if "isinstance" in vars(m):
+                delattr(m, "isinstance")
+        n = int(cex.get("max_parse_nodes", 0))
+        try:
+            Linter(config=FluffConfig(overrides={"dialect": "ansi", "max_parse_nodes": n})).lint_string(sql, fix=fix)
+        except Exception as e:
+            return f"Linter.lint_string({sql!r}, fix={fix}) with max_parse_nodes={n} raises {type(e).__name__}: {str(e)[:90]}"
+        return None
+    return rp
+
+
+# ---------------------------------------------------------------- lint_parsed over variants that did / did not parse
+def make_variants():
+    def factory(excluded=frozenset()):
+        lmod.linter_logger = NullLogger()
+
+        def harness(c):
+            src = "select\n{% if True %}\n a\n{% else %}\n b\n{% endif %}\nfrom t\n"
+            lin = Linter(config=FluffConfig(overrides={"dialect": "ansi", "templater": "jinja", "rules": "LT01,CP01"}))
+            parsed = lin.parse_string(src)
+            assert len(parsed.parsed_variants) >= 2, "template no longer yields two variants"
+            variants = []
+            for i, v in enumerate(parsed.parsed_variants[:3]):
+                has_tree = bool(fresh_bool(c, f"variant{i}_has_tree"))
+                variants.append(v if has_tree else v._replace(tree=None, parsing_violations=[SQLParseError("fatal", line_no=1, line_pos=1)]))
+            fix = bool(fresh_bool(c, "fix_mode"))
+            p2 = parsed._replace(parsed_variants=variants)
+            lf = lin.lint_parsed(p2, lin.get_rulepack(), fix=fix)   # REAL
+            if variants[0].tree is not None and any(v.tree is None for v in variants[1:]):
+                c.witness("alternate_variant_without_tree")
+            if all(v.tree is None for v in variants):
+                c.witness("no_variant_parsed")
+            return lf is not None
+        return harness
+    return factory
+
+
 def units(tier, seed):
     return [
+        Unit(name=f"c04.lint_under_symbolic_node_limit[{label},{'fix' if fix else 'lint'}]",
+             functions=["sqlfluff.core.linter.linter.Linter.lint_string/_parse_tokens/lint_fix_parsed", "sqlfluff.core.linter.fix.apply_fixes",
+                        "BaseSegment.validate_segment_with_reparse", "ParseContext.increment_parse_nodes/seed_parse_nodes/from_config"],
+             bounds={"max_parse_nodes": "unbounded symbolic integer", "sql": sql, "rules": "all default", "mode": "fix" if fix else "lint"},
+             make=make_limit_run(sql, fix), replay=replay_limit_run(sql, fix),
+             stubs=["isinstance(limit, int) -> sym_isinstance in linter.py/context.py (the limit is a z3 integer)"],
+             outside=["other inputs", "max_parse_depth (see c04.parse_depth_limit)"],
+             witnesses_required=["limit_reported_as_PRS", "within_limit"], sharded=True, timeout_s=900)
+        for label, sql in LIMIT_SQL.items() for fix in ([True] if tier == "quick" else [True, False])
+    ] + [
+        Unit(name="c04.lint_parsed_variants", functions=["sqlfluff.core.linter.linter.Linter.lint_parsed", "ParsedString.root_variant"],
+             bounds={"rendering variants": "2-3 (real jinja if/else file)", "each variant": "parsed / fatal parse failure (no tree)", "mode": "lint / fix"},
+             make=make_variants(), replay="concrete", stubs=["none beyond replacing a variant's tree by None"],
+             witnesses_required=["alternate_variant_without_tree", "no_variant_parsed"], sharded=False, timeout_s=300),
+    ] + [
         Unit(name=f"c04.parse_depth_limit[{k} nested matches]", functions=["sqlfluff.core.parser.context.ParseContext.deeper_match"],
              bounds={"nesting": k, "limit / initial depth": "unbounded"}, make=make_depth(k), replay="concrete",
              witnesses_required=["limit_exceeded", "within_limit"], sharded=False, timeout_s=120) for k in ([1, 3] if tier == "quick" else [1, 3, 5])
